@@ -1,0 +1,37 @@
+//go:build verif
+
+package thrift
+
+import "unsafe"
+
+// Add-only observation hooks for the verification harness (build tag verif).
+// With the tag off this file vanishes.
+
+// VerifSpanCache returns the package's span allocator so that the harness can observe (by
+// reflection) the bump pointers and block addresses of its size classes (C16).
+func VerifSpanCache() interface{} { return spanCache }
+
+// VerifSpanCacheEnabled reports the current SetSpanCache setting (C16).
+func VerifSpanCacheEnabled() bool { return spanCacheEnable }
+
+// ---- C08 (skippers): budgets other than defaultRecursionDepth, decoder counters ----
+
+// VerifSkipDepth calls the unsafe-pointer skipType on a NON-EMPTY slice with a chosen budget.
+func VerifSkipDepth(b []byte, t TType, depth int) (int, error) {
+	p := unsafe.Pointer(&b[0])
+	return skipType(p, uintptr(p)+uintptr(len(b)), t, depth)
+}
+
+// VerifBufferReaderSkipDepth calls BufferReader.skipType with a chosen budget.
+func VerifBufferReaderSkipDepth(r *BufferReader, t TType, depth int) error {
+	return r.skipType(t, depth)
+}
+
+// VerifSkipDecoderRn returns SkipDecoder's count of peeked bytes.
+func VerifSkipDecoderRn(p *SkipDecoder) int { return p.rn }
+
+// VerifBytesSkipDecoderN returns BytesSkipDecoder's offset and remaining length.
+func VerifBytesSkipDecoderN(p *BytesSkipDecoder) (int, int) { return p.n, len(p.b) }
+
+// VerifReaderSkipDecoderN returns ReaderSkipDecoder's byte count and private buffer length.
+func VerifReaderSkipDecoderN(p *ReaderSkipDecoder) (int, int) { return p.n, len(p.b) }
